@@ -158,7 +158,7 @@ def validate(path: str, n: int, workers=8):
     v = r.verdicts()
     judged = [t for t, cl in v.items() if "ACCEPT" in cl or "REJECT" in cl]
     if not r.completed or len(judged) != n:
-        raise MachineryError(f"TreeTrace: {len(judged)}/{n} judged, rc={r.rc}\n" + "\n".join(r.out.splitlines()[-30:]))
+        raise MachineryError(f"TreeTrace: {len(judged)}/{n} judged, rc={r.rc}\n" + r.diagnosis())
     return v, r
 
 
